@@ -528,7 +528,40 @@ def r7_buffer(report, repo):
                'the buffer size becomes the size of the unread remainder')
 
 
+def r8_repoll(report, repo):
+  rule = 'C14-R8'
+  report.rule(rule, 'T-MUST: read_for_stream polls its own queue again after '
+              'winning the connection reader lock and before the first wire '
+              'read (a message queued by the previous reader between the first '
+              'poll and the lock hand-over is otherwise overtaken)')
+  rf = repo.func(AP, 'AdbConnection.read_for_stream')
+  g = lib.cfg(rf)
+  acq = [n for n in g.nodes if n.kind == 'test' and
+         call_name(n.ast) == 'self._reader_lock.acquire']
+  reads = [n for n, c in lib.nodes_with_call(g, attr='read_message')]
+  report.expect_instances(rule, len(acq), 1, 'reader-lock acquisitions')
+  report.expect_instances(rule, len(reads), 1, 'wire reads')
+
+  def polls(n):
+    return any(isinstance(s, ast.Call) and last_attr(s) in ('get_nowait', 'get')
+               and (dotted(s.func.value) or '').endswith('message_queue')
+               for s in n.subnodes())
+  for a in acq:
+    won = a.succ('T')
+    if won is None:
+      continue
+    seen = [won] + g.reach([won], avoid=polls)
+    bad = [r for r in reads if not polls(won) and any(r is x for x in seen)]
+    report.check(not bad, rule, rf.qualname, 'repoll-after-lock', a.ast,
+                 'queue polled between winning the lock and reading the wire',
+                 'the wire is read right after winning the reader lock without '
+                 'polling this stream\'s queue again: a message the previous '
+                 'reader queued meanwhile is delivered after newer data '
+                 '(reordering) or the read blocks with its data queued')
+
+
 def run(report, repo):
+  report.guard(r8_repoll, report, repo)
   res = report.guard(r1_acks, report, repo)
   if res is not None:
     report.guard(r2_chunks, report, repo, res[0], res[1])
